@@ -158,7 +158,7 @@ def obligations(tier, seed):
     def add(name, factory, args, clause):
         obs.append(scenario_ob("C05", name, "V", factory, args, clause=clause, funcs=FUNCS, seed=seed))
 
-    batches = [(), (2,)] if tier == "quick" else [(), (2,), (2, 3)]
+    batches = [(), (2,), (1,)] if tier == "quick" else [(), (2,), (2, 3), (1,), (1, 2)]
     for b in batches:
         for with_mu in (False, True):
             add("C05.constant[batch=%s,mu=%s]" % (b, with_mu), "scn_constant", (b, with_mu), "constant site model")
